@@ -78,6 +78,7 @@ func c15Cases(run *ev.Run) []c15Case {
 			add(true, p, svc.Bidi, "never-read", "inside-blocked-Send", []string{"HOOK:Sfill", "R", "CR", "CP"}, dl)
 			add(true, p, svc.Bidi, "send1-wait", "inside-blocked-CloseResponse", []string{"S", "HOOK:CP"}, dl)
 			add(true, p, svc.Bidi, "send1-wait", "inside-blocked-Receive-after-CloseRequest", []string{"S", "CR", "R", "HOOK:R", "R", "CP"}, dl)
+			add(true, p, svc.Bidi, "server-side", "handler-context-ends", []string{"S", "CR", "Rall", "CP"}, dl)
 			for _, h2 := range []bool{false, true} {
 				// --- unary
 				add(h2, p, svc.Unary, "recv-wait", "before-call", []string{"X", "CALL"}, dl)
@@ -95,6 +96,12 @@ func c15Cases(run *ev.Run) []c15Case {
 				add(h2, p, svc.ServerStream, "send1-wait", "inside-blocked-Receive", []string{"CALL", "R", "HOOK:R", "R", "CP"}, dl)
 				add(h2, p, svc.ServerStream, "partial", "inside-blocked-Receive-mid-message", []string{"CALL", "HOOK:R", "R", "CP"}, dl)
 				add(h2, p, svc.ServerStream, "send1-wait", "inside-blocked-Close", []string{"CALL", "HOOK:CP"}, dl)
+				add(h2, p, svc.Unary, "partial", "inside-blocked-call-mid-message", []string{"HOOK:CALL"}, dl)
+				// the handler's own context ends (server-side timeout / shutdown) while the
+				// client's is alive; the handler returns ctx.Err()
+				add(h2, p, svc.Unary, "server-side", "handler-context-ends", []string{"CALL"}, dl)
+				add(h2, p, svc.ClientStream, "server-side", "handler-context-ends", []string{"S", "CAR"}, dl)
+				add(h2, p, svc.ServerStream, "server-side", "handler-context-ends", []string{"CALL", "Rall", "CP"}, dl)
 			}
 		}
 	}
@@ -113,7 +120,12 @@ func c15(run *ev.Run) int {
 			_, _ = io.Copy(io.Discard, req.Body)
 			ct := req.Header.Get("Content-Type")
 			w.Header().Set("Content-Type", ct)
-			_, _ = w.Write([]byte{0, 0, 0, 0, 100, 1, 2, 3, 4, 5, 6, 7, 8, 9, 10})
+			if strings.HasPrefix(ct, "application/grpc") || strings.HasPrefix(ct, "application/connect+") {
+				_, _ = w.Write([]byte{0, 0, 0, 0, 100, 1, 2, 3, 4, 5, 6, 7, 8, 9, 10})
+			} else {
+				// unary Connect: the first half of a message, then silence
+				_, _ = w.Write([]byte{0x1a, 100, 'h', 'a', 'l', 'f'})
+			}
 			if f, ok := w.(http.Flusher); ok {
 				f.Flush()
 			}
@@ -122,6 +134,19 @@ func c15(run *ev.Run) int {
 			case <-time.After(20 * time.Second):
 			}
 			return
+		}
+		if mode := req.Header.Get("X-Verif-Server-End"); mode != "" {
+			// the server ends the handler's context itself
+			var ctx context.Context
+			var cancel context.CancelFunc
+			if mode == "deadline" {
+				ctx, cancel = context.WithTimeout(req.Context(), 80*time.Millisecond)
+			} else {
+				ctx, cancel = context.WithCancel(req.Context())
+				go func() { time.Sleep(80 * time.Millisecond); cancel() }()
+			}
+			defer cancel()
+			req = req.WithContext(ctx)
 		}
 		mux.ServeHTTP(w, req)
 	})
@@ -150,10 +175,14 @@ func c15Run(run *ev.Run, srv *svc.Server, c c15Case) {
 	}
 	var prog *svc.Program
 	partial := c.handler == "partial"
-	if !partial {
-		prog = c15Handler(c.handler)
-	} else {
+	serverSide := c.handler == "server-side"
+	switch {
+	case partial:
 		prog = &svc.Program{}
+	case serverSide:
+		prog = &svc.Program{Steps: []svc.Step{{Op: "recv"}, {Op: "waitctx"}}, ReturnCtxErr: true}
+	default:
+		prog = c15Handler(c.handler)
 	}
 	call := srv.Reg.New("c15", prog)
 	defer srv.Reg.Drop(call)
@@ -162,6 +191,13 @@ func c15Run(run *ev.Run, srv *svc.Server, c c15Case) {
 	if partial {
 		// route to the raw partial-message responder
 		cs = srv.Clients(c.http2, append(svc.ProtoOpts(c.proto, "proto"), connect.WithInterceptors(headerIcept{"X-Verif-Partial", "1"}))...)
+	}
+	if serverSide {
+		mode := "cancel"
+		if c.deadline {
+			mode = "deadline"
+		}
+		cs = srv.Clients(c.http2, append(svc.ProtoOpts(c.proto, "proto"), connect.WithInterceptors(headerIcept{"X-Verif-Server-End", mode}))...)
 	}
 	// the instant
 	var instant time.Time
@@ -217,6 +253,29 @@ func c15Run(run *ev.Run, srv *svc.Server, c c15Case) {
 			run.Violation(key+"/hang", fmt.Sprintf("operation %s did not return within 15 s of the cancellation/expiry", o.Op), detail)
 			return
 		}
+	}
+	if serverSide {
+		// the client's context is alive; the handler returned its own context's
+		// error, which must reach the client with the same classification
+		run.Count("server_side_context_end.checked", 1)
+		var term error
+		for _, o := range cr.Ops {
+			if o.Err != nil && !errors.Is(o.Err, io.EOF) && (o.Op == "CALL" || o.Op == "CAR" || o.Op == "R") {
+				term = o.Err
+				break
+			}
+		}
+		if c.kind == svc.ServerStream && term == nil {
+			for _, o := range cr.Ops {
+				if o.Op == "R" && o.Err != nil {
+					term = o.Err
+				}
+			}
+		}
+		if connect.CodeOf(term) != wantCode || term == nil {
+			run.Violation(key+"/classification", fmt.Sprintf("the handler returned its context's error (%v), the client received %v", wantCode, term), detail)
+		}
+		return
 	}
 	instantMu.Lock()
 	at := instant
